@@ -157,13 +157,14 @@ void Log::ioThread(std::ostream& debug_sink) {
       io_thread_running = state_.ioThreadRunning;
       numDiscarded = state_.numDiscarded;
 
-      state_.curSize = 0;
       state_.numDiscarded = 0;
       state_.ioTick++; // flips the last bit that getCurrentQueue uses
     }
 
+    size_t written = 0;
     for (auto& buf : *q) {
       debug_sink << buf;
+      written += buf.size();
     }
 
     if (numDiscarded) {
@@ -174,6 +175,13 @@ void Log::ioThread(std::ostream& debug_sink) {
 
     // clear() doesn't shrink capacity, only invalidates contents
     q->clear();
+
+    // curSize covers both queues: lines stay accounted for until they have
+    // been written, so maxSize bounds everything that is still held in memory
+    {
+      std::lock_guard<std::mutex> lock(state_.lock);
+      state_.curSize -= written;
+    }
   }
 }
 
